@@ -454,7 +454,7 @@ def _work(groups):
     return [run_group(g) for g in groups]
 
 
-def evaluate(ctx, cases, workers=6):
+def evaluate(ctx, cases, workers=None):
     """cases = [{"history", "cmd"}]; cases with the same history share one construction of the state."""
     groups, index = [], {}
     for i, c in enumerate(cases):
@@ -465,6 +465,7 @@ def evaluate(ctx, cases, workers=6):
         g = groups[index[key]]
         g["cmds"].append(c["cmd"])
         g["ix"].append(i)
+    workers = workers or int(os.environ.get("VERIF_WORKERS") or 6)
     nw = max(1, min(workers, len(groups)))
     chunks = [groups[i::nw] for i in range(nw)]
     if nw > 1:
@@ -601,18 +602,15 @@ def run(ctx):
     ctx.hist("corpus", len(cc))
     if cc:
         evaluate(ctx, cc)
-    nstates = ctx.n(24, 120)
-    done = 0
-    soft = ctx.t0 + (100 if ctx.tier == "quick" and not ctx.escalated else 1e9)   # keep the quick tier well under 3 minutes
-    while done < nstates and not ctx.out_of_time() and time.time() < soft:
-        evaluate(ctx, gen_cases(ctx.rng, 6, ctx.n(8, 24)))
-        done += 6
     if ctx.tier == "thorough" or ctx.escalated:
-        # every crash point of every command on pa from every state of the single-product universe
-        cmds = [c for c in all_commands() if c["p"] == 0]
-        batch, nst = [], 0
+        # every crash point of every command of flavor 0 on pa from every state of the single-product universe
+        # (the states come in flavor-symmetric pairs, so the commands of flavor 1 are covered up to renaming)
+        cmds = [c for c in all_commands() if c["p"] == 0 and c["f"] == 0]
+        reserve = 0.15 * (ctx.deadline - ctx.t0)          # keep some of the budget for the random histories
+        batch, nst, complete = [], 0, True
         for hist in enum_states():
-            if ctx.out_of_time():
+            if time.time() > ctx.deadline - reserve:
+                complete = False
                 ctx.note("thorough enumeration stopped by the time budget after %d of 324 states" % nst)
                 break
             batch += [{"history": hist, "cmd": c} for c in cmds]
@@ -620,11 +618,17 @@ def run(ctx):
             if nst % 12 == 0:
                 evaluate(ctx, batch)
                 batch = []
-        else:
-            if batch:
-                evaluate(ctx, batch)
-            ctx.hist("enumerated-states", nst)
+        if batch:
+            evaluate(ctx, batch)
+        ctx.hist("enumerated-states", nst)
+        if complete:
             ctx.note("exhaustive: all 324 states of the single-product universe x %d commands x every crash point" % len(cmds))
+    nstates = ctx.n(24, 120)
+    done = 0
+    soft = ctx.t0 + (100 if ctx.tier == "quick" and not ctx.escalated else 1e9)   # keep the quick tier well under 3 minutes
+    while done < nstates and not ctx.out_of_time() and time.time() < soft:
+        evaluate(ctx, gen_cases(ctx.rng, 6, ctx.n(8, 24)))
+        done += 6
     if ctx.evaluations and ctx.distinct_nontrivial < 20:
         raise common.InfraError("degenerate distribution: %d commands with effects" % ctx.distinct_nontrivial)
 
